@@ -13,6 +13,18 @@ def _case(c):
     import mido
     P, tail, expect = c[:3]
     pieces = c[3] if len(c) > 3 else None
+    if (len(P) + len(tail)) % 5 == 0:
+        # an earlier, unrelated call that was rejected half-way (a complete message, then an item that is no byte) must not
+        # be able to influence this one
+        for bad in ([0x90, 1, 2, 256], [0xf0, 5, 0xf7, 0xc0, -1], [0xf8, 0x80, 1, 'x']):
+            try:
+                mido.parse_all(bad)
+            except (ValueError, TypeError):
+                pass
+            try:
+                mido.parse(bad)
+            except (ValueError, TypeError):
+                pass
     try:
         a = mido.parse_all(P)
         b = mido.parse_all(P + tail)
@@ -24,6 +36,14 @@ def _case(c):
     if cb != ca + expect:
         fail = (f'parse_all(P + M) = {cb} but parse_all(P) = {ca} and the appended messages are {expect} '
                 f'(P={P}, appended bytes={tail})')
+    if fail is None:
+        try:
+            ci = [msgs.canon_msg(m) for m in mido.parse_all(iter(P + tail))]
+            cg = [msgs.canon_msg(m) for m in mido.Parser(b for b in (P + tail))]
+        except Exception as e:
+            return 'ok' + (' ' + ';'.join(cb) if cb else ''), f'parsing the bytes from an iterator raised {type(e).__name__}: {e}'
+        if ci != cb or cg != cb:
+            fail = f'the bytes handed over as an iterator / generator parse to {ci} / {cg}, as a list to {cb}'
     if fail is None and pieces is not None:
         # the same bytes handed to one Parser piece by piece (the prefix in its natural units, then the message)
         try:
